@@ -71,6 +71,12 @@ let cmp_traces ~exact clause site (m : tr list) (i : tr list) =
                if not (if exact then q_eq (snd x) (snd y) else q_close (snd x) (snd y)) then bad ()) m i
 let small_tr (l : tr list) = List.for_all (fun (_, e) -> small_n 12 e) l
 
+(* the two largest entries of a row are within 1e-9 (relative): an arg-max taken on rounded doubles may
+   legitimately differ from the one taken on the exact values *)
+let near_tie (rw : q list) : bool =
+  match List.sort (fun x y -> q_cmp y x) rw with
+  | a :: b :: _ -> q_le (q_sub a b) (q_mul tol9 (q_add q_one (q_abs a)))
+  | _ -> false
 let matrix_row (m : q list list) (s : nat) : q list = List.nth m (int_of_nat s)
 let matrix_get (m : q list list) (s : nat) (a : nat) : q = List.nth (matrix_row m s) (int_of_nat a)
 
@@ -130,6 +136,7 @@ let judge _id (c : cursor) (r : cursor) : bool * string =
     let state = ref (z, z) in
     let pending = ref [] in
     let heads = ref 0 in
+    let illc = ref 0 in
     List.iteri (fun i (s, a, s1, rw) ->
         let coin = (next_int r) <> 0 in
         if coin then incr heads;
@@ -145,12 +152,18 @@ let judge _id (c : cursor) (r : cursor) : bool * string =
              if not (in_box2b (q_sub lo (sl lo)) (q_add hi (sl hi)) ia ic) then
                oracle_fail "doubleq_bounded" site (Printf.sprintf "qa or qc-qa outside [%s,%s]: qa %s qc %s" (string_of_q lo) (string_of_q hi) (str_tab ia) (str_tab ic))
            | None -> ());
-          let (ma, mc) = List.fold_left (dq_step alpha g) !state pend in
-          cmp_tab ~exact:ex "dq_step_qa" site ma ia;
-          cmp_tab ~exact:ex "dq_step_qc" site mc ic;
+          let tie = ref false in
+          let (ma, mc) = List.fold_left (fun (qa, qc) (((((coin, s), a), s1), rw) as e) ->
+              let ra = matrix_row qa s1 and rc = matrix_row qc s1 in
+              if near_tie (if coin then ra else List.map2 q_sub rc ra) then tie := true;
+              dq_step alpha g (qa, qc) e) !state pend in
+          (try cmp_tab ~exact:ex "dq_step_qa" site ma ia; cmp_tab ~exact:ex "dq_step_qc" site mc ic
+           with Disagreement (c0, s0, d0) ->
+             (* outside the exact regime a near-tie in the arg-max row is ill-conditioned: skip *)
+             if (not ex) && !tie then incr illc else raise (Disagreement (c0, s0, d0)));
           state := (ia, ic); pending := []
         end) steps;
-    (n >= 2 && !heads > 0 && !heads < n, "dq" ^ (if small g && small alpha then "_dyadic" else "_general"))
+    (n >= 2 && !heads > 0 && !heads < n, "dq" ^ (if small g && small alpha then "_dyadic" else "_general") ^ (if !illc > 0 then "_ill_conditioned" else ""))
   | "sarsal" | "octl" | "oevl" ->
     let k = if kind = "sarsal" then "sarsal" else next c in
     let ns = next_int c in let na = next_int c in
@@ -210,8 +223,11 @@ let judge _id (c : cursor) (r : cursor) : bool * string =
                 (List.combine er ir)) (List.combine expect iq)
           end;
           if List.length itr < List.length (snd !state) + List.length pend then removed := true;
+          let tie = ref false in
           let agrees tol' =
-            let (mq, mtr) = List.fold_left (step_tol tol') !state pend in
+            let (mq, mtr) = List.fold_left (fun st ((_, _, s1, _, _) as e) ->
+                if kind = "octl" && near_tie (matrix_row (fst st) s1) then tie := true;
+                step_tol tol' st e) !state pend in
             cmp_tab ~exact:ex (kind ^ "_step_q") site mq iq;
             cmp_traces ~exact:ex (kind ^ "_step_traces") site mtr itr in
           (try agrees tol with Disagreement (c0, s0, d0) ->
@@ -219,7 +235,7 @@ let judge _id (c : cursor) (r : cursor) : bool * string =
                 cut by one side and kept by the other; accept if a cut-off moved by 1e-9 reproduces the dump *)
              let eps9 = q_mul tol9 (q_add q_one (q_abs tol)) in
              let ok_pert t = (try agrees t; true with Disagreement _ -> false) in
-             if (not ex) && (ok_pert (q_add tol eps9) || ok_pert (q_sub tol eps9)) then incr ill
+             if (not ex) && (!tie || ok_pert (q_add tol eps9) || ok_pert (q_sub tol eps9)) then incr ill
              else raise (Disagreement (c0, s0, d0)));
           state := (iq, itr); pending := []
         end) steps;
@@ -301,8 +317,11 @@ let judge _id (c : cursor) (r : cursor) : bool * string =
            let donel = List.rev_append ch !st.ps_done in
            oracle ~ex d donel;
            (match ps_batch m theta n !st ch with
-            | PsBadChoice -> disagree "ps_batch_top" "PrioritizedSweeping::batchUpdateQ"
-                               ("queue_.top() sequence " ^ str_nats tops ^ " is not a sequence of maximal queued pairs of the model; queue " ^ str_qu !st.ps_queue)
+            | PsBadChoice ->
+              (* outside the exact regime two priorities may be tied up to rounding after the first pop *)
+              if not ex then incr inconclusive else
+              disagree "ps_batch_top" "PrioritizedSweeping::batchUpdateQ"
+                ("queue_.top() sequence " ^ str_nats tops ^ " is not a sequence of maximal queued pairs of the model; queue " ^ str_qu !st.ps_queue)
             | PsOk st' -> (match matches ~ex st' d with Some msg -> disagree "ps_batch" "PrioritizedSweeping::batchUpdateQ" msg | None -> ()));
            st := resync d donel
          | "B" ->
